@@ -102,6 +102,31 @@ theorem child_parent {h : Nat → Node} {t : PT} {q par : Option Nat} {x c : Nat
     | leaf => simp [Repr] at hRr
     | node _ y _ => simp only [Repr] at hRr; obtain ⟨e, hp, _⟩ := hRr; cases e; exact hp
 
+/-- replacing the subtree at `a` by one with the same in-order addresses keeps the in-order addresses -/
+theorem addrs_replace {t : PT} {a : Nat} {s s' : PT} (hnd : t.addrs.Nodup) (hs : t.sub a = some s)
+    (he : s'.addrs = s.addrs) : (t.replace a s').addrs = t.addrs := by
+  induction t with
+  | leaf => simp [PT.sub] at hs
+  | node l b r ihl ihr =>
+    have hnd' := hnd
+    simp only [PT.addrs] at hnd'
+    rw [List.nodup_append] at hnd'
+    obtain ⟨ndl, ndr', hdisj⟩ := hnd'
+    rw [List.nodup_cons] at ndr'
+    by_cases hab : a = b
+    · simp [PT.sub, hab] at hs; subst hs; simp [PT.replace, hab, he]
+    · simp only [PT.sub, hab, if_false] at hs
+      simp only [PT.replace, hab, if_false, PT.addrs]
+      cases hl : l.sub a with
+      | some s0 =>
+        simp [hl] at hs; subst hs
+        have har : a ∉ r.addrs := fun ha => hdisj a (mem_of_sub hl) a (by simp [ha]) rfl
+        rw [ihl ndl hl, replace_of_not_mem har]
+      | none =>
+        simp [hl] at hs
+        have hal : a ∉ l.addrs := fun ha => hdisj a ha a (by simp [mem_of_sub hs]) rfl
+        rw [ihr ndr'.2 hs, replace_of_not_mem hal]
+
 /-- what is known about an address `n` of a held tree: its subtree, and its parent -/
 theorem rot_setup {h : Nat → Node} {q : Option Nat} {t : PT} {n : Nat} (hR : Repr h q none t)
     (hnd : t.addrs.Nodup) (hn : n ∈ t.addrs) :
@@ -139,7 +164,7 @@ structure RotL (h h' : Nat → Node) (n r : Nat) : Prop where
 theorem rotL_heap {h h' : Nat → Node} {q : Option Nat} {t : PT} {n r : Nat}
     (hR : Repr h q none t) (hnd : t.addrs.Nodup) (hn : n ∈ t.addrs) (hr : (h n).right = some r)
     (H : RotL h h' n r) :
-    ∃ t', Repr h' (if (h n).parent = none then some r else q) none t' ∧ t'.addrs.Nodup ∧ SameAddrs t t' := by
+    ∃ t', Repr h' (if (h n).parent = none then some r else q) none t' ∧ t'.addrs.Nodup ∧ t'.addrs = t.addrs := by
   obtain ⟨A, R, hs, hnds, hsub, hA, hRr, hpar, hdich⟩ := rot_setup hR hnd hn
   rw [hr] at hRr
   cases R with
@@ -221,16 +246,7 @@ theorem rotL_heap {h h' : Nat → Node} {q : Option Nat} {t : PT} {n r : Nat}
         simp [Redirected, hxe, h1, h2]
   · exact nodup_replace hnd hs (by rw [hs'addrs]; simpa [PT.addrs] using hnds)
       (fun x hx => .inl (by rw [← hs'addrs]; exact hx))
-  · intro x
-    rw [mem_replace hnd hs, hs'addrs]
-    constructor
-    · rintro (⟨e, _⟩ | e)
-      · exact e
-      · exact hsub x (by simpa [PT.addrs] using e)
-    · intro e
-      by_cases hx : x ∈ (PT.node A n (.node B r C)).addrs
-      · exact .inr hx
-      · exact .inl ⟨e, hx⟩
+  · exact addrs_replace hnd hs hs'addrs
 
 /-! ### symbolic execution, generic in the side -/
 
@@ -294,6 +310,33 @@ def stG (st : St) (n r : Nat) : St :=
 
 def rotSt (f g : Fld) (st : St) (n r : Nat) : St :=
   stG (stF g (stE f g (stD (stC g (stB f g st n r) n r) n r) n r) n r) n r
+
+theorem key_upd_setP (h : Nat → Node) (a : Nat) (f : Fld) (p : Option Nat) (x : Nat) :
+    ((upd h a (setP (h a) f p)) x).key = (h x).key := by
+  unfold upd
+  split
+  · next e => subst e; cases f <;> rfl
+  · rfl
+
+/-- a rotation writes no key field -/
+theorem rotSt_key (f g : Fld) (st : St) (n r : Nat) (x : Nat) :
+    ((rotSt f g st n r).h x).key = (st.h x).key := by
+  have kB : ∀ (st : St) x, ((stB f g st n r).h x).key = (st.h x).key := fun st x => key_upd_setP _ _ _ _ _
+  have kC : ∀ (st : St) x, ((stC g st n r).h x).key = (st.h x).key := by
+    intro st x; unfold stC; split
+    · exact key_upd_setP _ _ _ _ _
+    · rfl
+  have kD : ∀ (st : St) x, ((stD st n r).h x).key = (st.h x).key := fun st x => key_upd_setP _ _ _ _ _
+  have kE : ∀ (st : St) x, ((stE f g st n r).h x).key = (st.h x).key := by
+    intro st x; unfold stE; split
+    · rfl
+    · split
+      · exact key_upd_setP _ _ _ _ _
+      · exact key_upd_setP _ _ _ _ _
+  have kF : ∀ (st : St) x, ((stF g st n r).h x).key = (st.h x).key := fun st x => key_upd_setP _ _ _ _ _
+  have kG : ∀ (st : St) x, ((stG st n r).h x).key = (st.h x).key := fun st x => key_upd_setP _ _ _ _ _
+  unfold rotSt
+  rw [kG, kF, kE, kD, kC, kB]
 
 section
 variable (cmpF : Int → Int → Int) (callH : CallH PName) (lf : Nat)
@@ -556,7 +599,7 @@ structure RotR (h h' : Nat → Node) (n l : Nat) : Prop where
 theorem rotR_heap {h h' : Nat → Node} {q : Option Nat} {t : PT} {n l : Nat}
     (hR : Repr h q none t) (hnd : t.addrs.Nodup) (hn : n ∈ t.addrs) (hl : (h n).left = some l)
     (H : RotR h h' n l) :
-    ∃ t', Repr h' (if (h n).parent = none then some l else q) none t' ∧ t'.addrs.Nodup ∧ SameAddrs t t' := by
+    ∃ t', Repr h' (if (h n).parent = none then some l else q) none t' ∧ t'.addrs.Nodup ∧ t'.addrs = t.addrs := by
   obtain ⟨A, C, hs, hnds, hsub, hA, hC, hpar, hdich⟩ := rot_setup hR hnd hn
   rw [hl] at hA
   cases A with
@@ -635,16 +678,7 @@ theorem rotR_heap {h h' : Nat → Node} {q : Option Nat} {t : PT} {n l : Nat}
         simp [Redirected, hxe, h1, h2]
   · exact nodup_replace hnd hs (by rw [hs'addrs]; simpa [PT.addrs] using hnds)
       (fun x hx => .inl (by rw [← hs'addrs]; exact hx))
-  · intro x
-    rw [mem_replace hnd hs, hs'addrs]
-    constructor
-    · rintro (⟨e, _⟩ | e)
-      · exact e
-      · exact hsub x (by simpa [PT.addrs] using e)
-    · intro e
-      by_cases hx : x ∈ (PT.node (.node A1 l B) n C).addrs
-      · exact .inr hx
-      · exact .inl ⟨e, hx⟩
+  · exact addrs_replace hnd hs hs'addrs
 
 theorem rotR_distinct {h : Nat → Node} {q : Option Nat} {t : PT} {n l : Nat}
     (hR : Repr h q none t) (hnd : t.addrs.Nodup) (hn : n ∈ t.addrs) (hl : (h n).left = some l) :
@@ -742,18 +776,19 @@ theorem rotateLeft_spec (cmpF : Int → Int → Int) (callH : CallH PName) (lf :
   obtain ⟨rfl, hc⟩ := run_rotBody cmpF callH lf (.inl ⟨rfl, rfl⟩) _ h
   have h0 := ptrIn_ofArgs0 hargs
   rcases hc with rfl | ⟨v1, st1, hcall, hc⟩
-  · exact ⟨t, hH, SameAddrs.refl t, trivial⟩
-  · obtain ⟨t1, hH1, hsa1, _⟩ := hK .getRight rfl _ _ _ _ t hH (by simpa using h0) hcall
+  · exact ⟨t, hH, Pres.refl hH, trivial⟩
+  · obtain ⟨t1, hH1, hP1, _⟩ := hK .getRight rfl _ _ _ _ t hH (by simpa using h0) hcall
     rcases hc with rfl | ⟨n, r, hv, hr, rfl⟩
-    · exact ⟨t1, hH1, hsa1, trivial⟩
+    · exact ⟨t1, hH1, hP1, trivial⟩
     · rw [hv] at h0
-      have hn1 : n ∈ t1.addrs := (hsa1 n).2 h0
+      have hn1 : n ∈ t1.addrs := (hP1.same n).2 h0
       have hr' : (st1.h n).right = some r := by simpa [getP] using hr
       obtain ⟨hR1, hnd1, hal1⟩ := hH1
       obtain ⟨H, eroot, ealloc, _⟩ := rotL_explicit st1 hR1 hnd1 hn1 hr'
-      obtain ⟨t', hR', hnd', hsa'⟩ := rotL_heap hR1 hnd1 hn1 hr' H
-      refine ⟨t', ⟨by rw [eroot]; exact hR', hnd', fun a ha => ?_⟩, SameAddrs.trans hsa1 hsa', trivial⟩
-      rw [ealloc]; exact hal1 a ((hsa' a).1 ha)
+      obtain ⟨t', hR', hnd', hadd'⟩ := rotL_heap hR1 hnd1 hn1 hr' H
+      have hH' : Holds (rotSt .right .left st1 n r) t' :=
+        ⟨by rw [eroot]; exact hR', hnd', fun a ha => by rw [ealloc]; exact hal1 a (by rw [← hadd']; exact ha)⟩
+      exact ⟨t', hH', hP1.trans ⟨hH', hadd', rotSt_key _ _ _ _ _⟩, trivial⟩
 
 theorem rotateRight_spec (cmpF : Int → Int → Int) (callH : CallH PName) (lf : Nat)
     (hK : ∀ fn, isK fn = true → SpecK callH fn) :
@@ -764,18 +799,18 @@ theorem rotateRight_spec (cmpF : Int → Int → Int) (callH : CallH PName) (lf 
   obtain ⟨rfl, hc⟩ := run_rotBody cmpF callH lf (.inr ⟨rfl, rfl⟩) _ h
   have h0 := ptrIn_ofArgs0 hargs
   rcases hc with rfl | ⟨v1, st1, hcall, hc⟩
-  · exact ⟨t, hH, SameAddrs.refl t, trivial⟩
-  · obtain ⟨t1, hH1, hsa1, _⟩ := hK .getLeft rfl _ _ _ _ t hH (by simpa using h0) hcall
+  · exact ⟨t, hH, Pres.refl hH, trivial⟩
+  · obtain ⟨t1, hH1, hP1, _⟩ := hK .getLeft rfl _ _ _ _ t hH (by simpa using h0) hcall
     rcases hc with rfl | ⟨n, r, hv, hr, rfl⟩
-    · exact ⟨t1, hH1, hsa1, trivial⟩
+    · exact ⟨t1, hH1, hP1, trivial⟩
     · rw [hv] at h0
-      have hn1 : n ∈ t1.addrs := (hsa1 n).2 h0
+      have hn1 : n ∈ t1.addrs := (hP1.same n).2 h0
       have hr' : (st1.h n).left = some r := by simpa [getP] using hr
       obtain ⟨hR1, hnd1, hal1⟩ := hH1
       obtain ⟨H, eroot, ealloc, _⟩ := rotR_explicit st1 hR1 hnd1 hn1 hr'
-      obtain ⟨t', hR', hnd', hsa'⟩ := rotR_heap hR1 hnd1 hn1 hr' H
-      refine ⟨t', ⟨by rw [eroot]; exact hR', hnd', fun a ha => ?_⟩, SameAddrs.trans hsa1 hsa', trivial⟩
-      rw [ealloc]; exact hal1 a ((hsa' a).1 ha)
-
+      obtain ⟨t', hR', hnd', hadd'⟩ := rotR_heap hR1 hnd1 hn1 hr' H
+      have hH' : Holds (rotSt .left .right st1 n r) t' :=
+        ⟨by rw [eroot]; exact hR', hnd', fun a ha => by rw [ealloc]; exact hal1 a (by rw [← hadd']; exact ha)⟩
+      exact ⟨t', hH', hP1.trans ⟨hH', hadd', rotSt_key _ _ _ _ _⟩, trivial⟩
 
 end Ekit.MiniGo.RBHeap.Rot
